@@ -136,26 +136,37 @@ Theorem empty_bundle21_not_recognised_refuted : forall md obs21 m i,
 Proof. exact empty_bundle21_pinned. Qed.
 Print Assumptions empty_bundle21_not_recognised_refuted.
 
-(* ---- identifier strictness ---- *)
-Theorem relaxed_ignores_spec_version : forall s v v', check_uuid s v true = check_uuid s v' true.
+(* ---- identifier strictness (im : which variant of _check_uuid / the interoperability regex the code matches) ---- *)
+Theorem relaxed_ignores_spec_version : forall im s v v', check_uuid im s v true = check_uuid im s v' true.
 Proof. exact relaxed_ignores_spec_version_pf. Qed.
 Print Assumptions relaxed_ignores_spec_version.
 
-Theorem strict_v20_implies_any : forall s v, check_uuid s v20s false = UOk true -> check_uuid s v false = UOk true.
+Theorem strict_v20_implies_any : forall im s v,
+  check_uuid im s v20s false = UOk true -> check_uuid im s v false = UOk true.
 Proof. exact strict_v20_implies_any_pf. Qed.
 Print Assumptions strict_v20_implies_any.
 
-Theorem strict_subset_relaxed : forall s v,
-  interop_match s = true -> check_uuid s v false = UOk true -> check_uuid s v true = UOk true.
-Proof. exact strict_subset_relaxed_pf. Qed.
+(* for EVERY text, once _check_uuid demands the canonical text (repair 979414d) *)
+Theorem strict_subset_relaxed : forall im s v, canonical_text im = true ->
+  check_uuid im s v false = UOk true -> check_uuid im s v true = UOk true.
+Proof. exact strict_subset_relaxed_repaired_pf. Qed.
 Print Assumptions strict_subset_relaxed.
 
+(* in either variant, for texts of the 8-4-4-4-12 shape *)
+Theorem strict_subset_relaxed_on_shape : forall im s v,
+  interop_match im s = true -> check_uuid im s v false = UOk true -> check_uuid im s v true = UOk true.
+Proof. exact strict_subset_relaxed_pf. Qed.
+Print Assumptions strict_subset_relaxed_on_shape.
+
 Theorem strictness_witnesses :
-  (check_uuid zero_uuid v20s true = UOk true /\ check_uuid zero_uuid v20s false = UOk false
-   /\ check_uuid zero_uuid v21 true = UOk true /\ check_uuid zero_uuid v21 false = UOk false)
-  /\ (check_uuid v1_uuid v21 false = UOk true /\ check_uuid v1_uuid v20s false = UOk false)
-  /\ (check_uuid v4_uuid v20s false = UOk true /\ check_uuid v4_uuid v21 false = UOk true /\ check_uuid v4_uuid v21 true = UOk true)
-  /\ (check_uuid braced_uuid v21 false = UOk true /\ check_uuid braced_uuid v21 true = UOk false).
+  both_modes (fun im =>
+    check_uuid im zero_uuid v20s true = UOk true /\ check_uuid im zero_uuid v20s false = UOk false
+    /\ check_uuid im zero_uuid v21 true = UOk true /\ check_uuid im zero_uuid v21 false = UOk false)
+  /\ both_modes (fun im => check_uuid im v1_uuid v21 false = UOk true /\ check_uuid im v1_uuid v20s false = UOk false)
+  /\ both_modes (fun im => check_uuid im v4_uuid v20s false = UOk true /\ check_uuid im v4_uuid v21 false = UOk true
+                           /\ check_uuid im v4_uuid v21 true = UOk true)
+  /\ (check_uuid pinned_idmode braced_uuid v21 false = UOk true /\ check_uuid pinned_idmode braced_uuid v21 true = UOk false
+      /\ check_uuid repaired_idmode braced_uuid v21 false = UOk false).
 Proof. exact strictness_witnesses_pf. Qed.
 Print Assumptions strictness_witnesses.
 
